@@ -88,12 +88,8 @@ CutIsProperPrefix == st.cut > 0 => Len(B) >= 1 /\ Len(B) < Len(Full(st))
 
 Last == IF Len(B) = 0 THEN 0 ELSE B[Len(B)]
 OobShape == IF Last = 60 THEN "lt-at-end" ELSE IF st.post = "stray" THEN "stray-close" ELSE "plain"
-\* the whole input ends with the end of a top-level <a> element (what the non-ns extractor returns for path a)
-TargetLast == st.cut = 0 /\ ~st.wrap /\ st.open # "ons"
-              /\ \/ st.post = "elem2"
-                 \/ st.post = "none" /\ (st.open \in SelfClosing \/ st.close = "ca")
 Emit == PrintT(ToJson([g |-> "xml", in |-> B, cnt |-> (st.cut = 0),
          shape |-> [oob |-> OobShape, span |-> "plain",
-                    term |-> IF TargetLast THEN "target-element-last" ELSE IF Last = 62 THEN "ends-with-tag" ELSE "plain"],
+                    term |-> IF Last = 62 THEN "input-ends-with-tag" ELSE "plain"],
          d |-> st]))
 =============================================================================
